@@ -10,6 +10,7 @@ blanked only when the commit repeats, same commit as predecessor => same backgro
 commit => different background, a commit seen before keeps its colour unless that equals the
 predecessor's.
 """
+import os
 import time
 
 import explore
@@ -33,7 +34,19 @@ COMMITS_PADDED = [
     ("^89abcde my dir/long file name.rs", "漢字漢字 名前漢字漢字", "2021-02-03 04:05:06 +0100"),
     ("fedcba98 old/name.rs             ", "B", "2019-12-31 23:59:59 -0330"),
 ]
-CODES = [" code x", "\ttab", "", " é漢 y"]
+# git blame -b / blame.blankBoundary: the hash column of a boundary commit is blank
+COMMITS_BLANK = [
+    ("0123456789abcdef", "A U Thor", "2020-01-01 00:00:00 +0000"),
+    ("                ", "Old Timer", "2001-02-03 04:05:06 +0100"),
+    ("fedcba9876543210", "B", "2019-12-31 23:59:59 -0330"),
+]
+# a renamed-file column whose name contains " (" (see known_findings.json)
+COMMITS_PAREN = [
+    ("0123456789abcdef g.txt    ", "A U Thor", "2020-01-01 00:00:00 +0000"),
+    ("^89abcde f (1).txt", "Alice A", "2021-02-03 04:05:06 +0100"),
+]
+# the last one: code that quotes a blame line (delta's own src/handlers/blame.rs has such lines)
+CODES = [" code x", "\ttab", "", " é漢 y", " //ea82f2d0 (Dan Davison 2021-08-22 18:20:19 -0700 120) let x"]
 NUMBERS = [7, 123]
 
 
@@ -66,7 +79,8 @@ class Blame(Problem):
     def __init__(self, K, palette, fmt_fields, commits=None):
         self.commits = commits or COMMITS
         self.K = K
-        self.palette = set(("i", p) for p in palette)
+        # (palette entries given as strings - hex colours - are not checked for membership)
+        self.palette = None if isinstance(palette[0], str) else set(("i", p) for p in palette)
         self.fmt_fields = fmt_fields      # which of commit/author/timestamp the format shows
         self.alphabet = []
         for ci in range(K):
@@ -125,7 +139,7 @@ class Blame(Problem):
         if len(bgs) != 1:
             raise ViolationError("mixed-background", "row carries backgrounds %r" % sorted(bgs), observed=sorted(bgs))
         bg = next(iter(bgs))
-        if bg not in self.palette:
+        if self.palette is not None and bg not in self.palette:
             raise ViolationError("colour-not-in-palette", "background %r is not a palette colour" % (bg,))
         want_code = code.replace("\t", " " * TABS)
         if shown_code.rstrip(" ") != want_code.rstrip(" "):
@@ -148,6 +162,11 @@ class Blame(Problem):
                 if field in self.fmt_fields and val not in meta:
                     raise ViolationError("metadata-missing:" + field, "%s %r not shown in %r" % (field, val, meta),
                                          expected=val, observed=meta)
+            # the renamed-file column is not part of the attribution
+            fname = h.strip().split(" ", 1)[1].strip() if " " in h.strip() else None
+            if fname and any(len(t.strip("()")) > 2 and t.strip("()") in meta for t in fname.split(" ")):
+                raise ViolationError("file-column-in-metadata", "the file name column %r shows up in the metadata %r"
+                                     % (fname, meta), observed=meta)
             if prev_bg is not None and bg == prev_bg:
                 raise ViolationError("different-commit-same-colour", "line attributed to another commit has the "
                                      "predecessor's background %r" % (bg,))
@@ -168,6 +187,8 @@ FORMATS = {
 def run_task(task):
     label, K, palette, fmt, ov, deadline = task
     padded = label.endswith(",padded-file-column")
+    commits = COMMITS_PADDED if padded else COMMITS_BLANK if label.endswith(",blank-boundary") else \
+        COMMITS_PAREN if label.endswith(",paren-file-column") else None
     opts = dict(ov)
     opts["tabs"] = str(TABS)
     opts["blame-palette"] = " ".join(str(p) for p in palette)
@@ -177,7 +198,7 @@ def run_task(task):
     caller = ["git", "blame", "f.rs"]
     drv = explore.get_driver(caller=caller)
     cid = drv.mkconfig(args)
-    prob = Blame(K, palette, FORMATS[fmt][1], COMMITS_PADDED if padded else None)
+    prob = Blame(K, palette, FORMATS[fmt][1], commits)
     stats, viols = explore.bfs(prob, drv, cid, deadline=deadline)
     drv.drop(cid)
     saturated = stats.max_depth < prob.max_depth and not stats.cap_hit
@@ -189,6 +210,61 @@ def run_task(task):
     d.update(label=label, spec=("K=%d" % K, "P=%d" % len(palette), fmt), violations=viols, args=args,
              caller=caller, saturated=saturated)
     return d
+
+
+def run_clock(task):
+    """E4, the wall clock as an environment answer: the real binary under a clock shim (shims/steptime.c) that
+    starts `age` seconds after the commit's time and advances `step` ms with every reading. With delta's default
+    (humanised, "20 seconds ago") timestamps the attribution of a line must not depend on when it is read:
+    3 lines of commit X, 1 of Y, 1 of X -> rows 2-3 blanked and coloured like row 1, row 4 differently,
+    row 5 like row 1."""
+    import subprocess
+    import build
+    from driver import base_env
+    ages, steps = task
+    shims = build.ensure_shims()
+    o = base_opts({"tabs": str(TABS), "blame-palette": "127 128 129", "blame-timestamp-output-format": None})
+    args = build_args(o)
+    t_commit = 1577836800      # 2020-01-01 00:00:00 +0000
+    lines = [blame_line(0, 1, " a"), blame_line(0, 2, " b"), blame_line(0, 3, " c"),
+             blame_line(3, 4, " d"), blame_line(0, 5, " e")]
+    data = b"".join(l + b"\n" for l in lines)
+    viols = {}
+    n = 0
+    outs = set()
+    for age in ages:
+        for step in steps:
+            env = base_env()
+            env.update({"LD_PRELOAD": os.path.join(shims, "steptime.so"), "VERIF_TIME_BASE": str(t_commit + age),
+                        "VERIF_TIME_STEP_MS": str(step), "DELTA_VERIF_PARENT_ARGS": "git blame f.rs"})
+            p = subprocess.run([build.BIN] + args, input=data, env=env, stdout=subprocess.PIPE, stderr=subprocess.PIPE,
+                               timeout=30)
+            n += 1
+            rows = [parse_row(r) for r in term.decode(p.stdout) if r.text != ""]
+            err = None
+            if p.returncode != 0 or len(rows) != 5 or any(r is None for r in rows):
+                err = ("not-rendered", "status %d, %d rows" % (p.returncode, len(rows)))
+            else:
+                outs.add(tuple(r[0].strip() for r in rows))
+                bg = [next(iter(r[3])) if len(r[3]) == 1 else None for r in rows]
+                if rows[1][0].strip() or rows[2][0].strip():
+                    err = ("metadata-not-blanked", "consecutive lines of one commit repeat the metadata: %r / %r"
+                           % (rows[1][0].strip(), rows[2][0].strip()))
+                elif not (bg[0] == bg[1] == bg[2]) or bg[0] is None:
+                    err = ("same-commit-different-colour", "three consecutive lines of one commit have backgrounds %r" % (bg[:3],))
+                elif bg[3] == bg[2]:
+                    err = ("different-commit-same-colour", "backgrounds %r" % (bg,))
+                elif bg[4] != bg[0]:
+                    err = ("colour-not-kept", "commit reappears with background %r, had %r, line above has %r" % (bg[4], bg[0], bg[3]))
+            if err and err[0] + ":clock" not in viols:
+                v = explore.Violation(err[0] + ":clock", "commit %d s old when delta starts, clock advancing %d ms per reading: %s"
+                                      % (age, step, err[1]), lines)
+                v.args = args
+                v.caller = ["git", "blame", "f.rs"]
+                v.env = {"LD_PRELOAD": "steptime.so", "VERIF_TIME_BASE": str(t_commit + age), "VERIF_TIME_STEP_MS": str(step)}
+                v.config_label = "clock,age=%d,step=%d" % (age, step)
+                viols[err[0] + ":clock"] = v
+    return {"n": n, "violations": list(viols.values()), "outs": outs}
 
 
 ASSUMPTIONS = [
@@ -216,6 +292,12 @@ def main(tier):
         tasks.append(("K=%d,P=%d,hyperlinks" % (K, len(P)), K, P, "default", {"hyperlinks": True}))
         tasks.append(("K=%d,P=%d,width=30" % (K, len(P)), K, P, "default", {"width": "30"}))
         tasks.append(("K=3,P=%d,padded-file-column" % len(P), 3, P, "default", {}))
+        tasks.append(("K=3,P=%d,blank-boundary" % len(P), 3, P, "default", {}))
+    tasks.append(("K=2,P=3,paren-file-column", 2, [127, 128, 129], "default", {}))
+    # palettes whose colours are distinct but are painted alike in 256-colour mode (a shipped theme has such a palette)
+    for tc in ("never", "always"):
+        tasks.append(("K=3,P=4,hex-palette,true-color=" + tc, 3, ["#1e1e2e", "#181825", "#313244", "#45475a"], "default",
+                      {"true-color": tc}))
     res = explore.pmap(run_task, [t + (deadline,) for t in tasks])
     states = transitions = renders = 0
     maxd = 0
@@ -248,6 +330,17 @@ def main(tier):
         if cur is None or len(v.history or []) < len(cur.history or []):
             best[v.klass] = v
     viols = sorted(best.values(), key=lambda v: v.klass)
+    # the wall clock: every age 0..150 s and around the later thresholds of the humanised form (45/90 min, 22/36 h),
+    # x clock steps (frozen, 0.4 s, 1.3 s per reading)
+    ages = list(range(0, 151)) + [a + d for a in (2700, 5400, 79200, 129600) for d in (-3, -2, -1, 0, 1, 2)]
+    if tier == "quick":
+        ages = ages[::3] + [44, 45, 89, 90]
+    cres = explore.pmap(run_clock, [(ages[i::8], (0, 400, 1300)) for i in range(8)])
+    for r in cres:
+        for v in r["violations"]:
+            if v.klass not in best:
+                best[v.klass] = v
+                viols.append(v)
     # CLI conformance through a stub git
     import c16
     stream = b"".join(blame_line(ci, n + 1, CODES[n % 4]) + b"\n" for n, ci in enumerate([0, 0, 1, 2, 0, 1, 1]))
@@ -258,6 +351,7 @@ def main(tier):
     cov = {"states": states, "transitions": transitions, "traces_validated_against_impl": renders + nconf,
            "samples": samples, "renders_of_real_code": renders, "stub_conformance_runs": nconf,
            "max_depth": maxd, "distinct_snapshots": len(snaps), "distinct_step_outputs": len(outs),
+           "clock_runs": sum(r["n"] for r in cres), "clock_distinct_metadata_texts": len(set().union(*[r["outs"] for r in cres])),
            "per_search": per, "searches_not_saturated": unsat, "caps_hit": caps,
            "exhaustive": not caps and not unsat}
     return report.finish(PROP, tier, "model_checking", cov, viols, ASSUMPTIONS, t0, runner.seed())
